@@ -76,6 +76,8 @@ VerTexts == {<<49, 46, 48>>, <<49, 46, 48, 48>>, <<49, 46, 48, 45, 48>>, <<49, 4
              <<50, 58, 48, 46, 49>>, <<48>>, <<49, 46, 48, 45, 49>>, <<57>>, <<49, 48>>} \cup BigRuns
             \* punctuation against letters and against other punctuation: 1.0.1  1a  1.a  1+  1.  1.0a  1.0+
             \cup {<<49, 46, 48, 46, 49>>, <<49, 97>>, <<49, 46, 97>>, <<49, 43>>, <<49, 46>>, <<49, 46, 48, 97>>, <<49, 46, 48, 43>>}
+            \* digit runs of EQUAL length whose first differing digit and a later one point in opposite directions: 1.19 1.21 1.91 1.12
+            \cup {<<49, 46, 49, 57>>, <<49, 46, 50, 49>>, <<49, 46, 57, 49>>, <<49, 46, 49, 50>>}
 BadN == {<<>>, <<97, 98, 99>>, <<49, 32, 48>>, <<45, 49, 58, 48>>, <<49, 46, 48, 95, 120>>}
 SatVecs == {[k |-> "sat", op |-> op, n |-> n, v |-> Classify(v).v] : op \in Ops, n \in VerTexts \cup BadN, v \in VerTexts}
 
